@@ -358,6 +358,7 @@ class Family:
             res.findings += self.error_scenarios()
         if self.prop == "C06":
             res.findings += self.failed_rebuild()
+        if self.prop in ("C06", "C01"):
             res.findings += self.reentrant_insert()
         res.findings.sort(key=lambda f: (f.signature is not None, f.kind == "correspondence"))
         res.notes.append(f"disagreements attributed to other properties (reported by their own checks): {foreign}")
@@ -702,7 +703,7 @@ def signature(case, d):
 
 def replay(payload):
     if payload.get("family") == "hist-reentrant":
-        r = Family("C06").reentrant_insert()
+        r = Family(payload.get("property", "C06")).reentrant_insert()
         print(r[0].summary if r else "re-entrant insert scenario passes")
         return bool(r)
     if payload.get("family") == "hist-error-scenario":
